@@ -1,4 +1,5 @@
 import RgVerif.Lemmas.SearcherStop
+import RgVerif.Lemmas.SearcherSimML
 /-
 C16 — stopping early or failing mid-stream yields a prefix of the full results; completion is
 signalled exactly once after a requested stop and never after an error.
@@ -33,6 +34,38 @@ theorem C16_stop (cfg : Config) (m : MatcherI) (inp : Bytes) (σ : Script) (k : 
   have h := run_prefix hk (st0 := Core.new cfg true) rfl (slicePre_wb hk cfg m inp)
   rw [← sliceByLine_eq, ← sliceByLine_eq] at h
   exact h
+
+/-- **C16, multi-line search** (`MultiLine::run`, with the repaired final flush: F9): same statement. -/
+theorem C16_stop_multiline (cfg : Config) (m : MatcherI) (inp : Bytes) (σ : Script) (k : Nat)
+    (hk : FirstStop σ k) :
+    let R := multiLine cfg m σ inp
+    let R0 := multiLine cfg m allCont inp
+    R0.result = .ok () ∧
+    (k + 1 < R0.events.length →
+      (∃ bc bo, R.events = R0.events.take (k + 1) ++ (if σ k = .stop then [Event.finish bc bo] else [])) ∧
+      (R.result = .err ↔ (σ k = .err ∨ (σ k = .stop ∧ σ (k + 1) = .err)))) ∧
+    (R0.events.length ≤ k + 1 →
+      R.events = R0.events ∧ (R.result = .err ↔ (k + 1 = R0.events.length ∧ σ k = .err))) := by
+  intro R R0
+  have h := run_prefix hk (st0 := Core.new cfg true) rfl (mlPre_wb hk cfg m inp)
+  rw [← multiLine_eq, ← multiLine_eq] at h
+  exact h
+
+/-- **C16 for `Searcher::search_slice`** whichever strategy it picks (the choice does not depend on the sink). -/
+theorem C16_stop_search_slice (cfg : Config) (m : MatcherI) (inp : Bytes) (σ : Script) (k : Nat)
+    (hk : FirstStop σ k) :
+    let R := searchSlice cfg m σ inp
+    let R0 := searchSlice cfg m allCont inp
+    R0.result = .ok () ∧
+    (k + 1 < R0.events.length →
+      (∃ bc bo, R.events = R0.events.take (k + 1) ++ (if σ k = .stop then [Event.finish bc bo] else [])) ∧
+      (R.result = .err ↔ (σ k = .err ∨ (σ k = .stop ∧ σ (k + 1) = .err)))) ∧
+    (R0.events.length ≤ k + 1 →
+      R.events = R0.events ∧ (R.result = .err ↔ (k + 1 = R0.events.length ∧ σ k = .err))) := by
+  unfold searchSlice
+  split
+  · exact C16_stop_multiline cfg m inp σ k hk
+  · exact C16_stop cfg m inp σ k hk
 
 /-- Nothing is delivered after the refused callback except the closing `finish`: the log of the
 interrupted search is never longer than `k + 2`. -/
